@@ -260,6 +260,8 @@ def matrices(repo, rep):
     got = set(pure_polys(all_value_terms(outs2), "EQ", min_degree=2))
     ref3 = {p for p in ref if len(p) == 4}
     got3 = {p for p in got if len(p) == 4}
+    # the same polynomial may be met in arcseconds (raw) or in degrees (after Angle(0, 0, x)): both scalings are accepted
+    got3 = got3 | {tuple(c / 3600 for c in p) for p in got3} | {tuple(c * 3600 for c in p) for p in got3}
     if len(ref3) >= 3 and ref3 <= got3:
         rep.ok("R-POLY", site, "zeta, z, theta (T = 0) are the polynomials of precession_equatorial for a start at J2000", obligation=True)
     else:
